@@ -217,6 +217,99 @@ func ZZ_C11_alias() {
 		rt.Assert(rt.BytesEq(hb[2+len(s0.bytes):], s0.bytes), "item-bytes:inside-a-list")
 		hb[rt.Choice("j", len(hb))] ^= x
 		zzSameSnap(zzSnapItem(it), s0, "list-bytes:element-unchanged")
+	case 13: // deriving from a list template (ellipsis anywhere, any repeat count) leaves the template as it was
+		shape := rt.Choice("shape", 4)
+		var tmpl ast.ItemNode
+		one, two := ast.NewIntNode(1, 1, "p"), ast.NewASCIINodeVariable("q", 0, 2)
+		switch shape {
+		case 0:
+			tmpl = ast.NewListNode(one, "...", two, "lv")
+		case 1:
+			tmpl = ast.NewListNode(one, two, "...")
+		case 2:
+			tmpl = ast.NewListNode(ast.NewListNode(one, "...[0]", "lv"), "...[1]", two, ast.NewBinaryNode(5))
+		case 3:
+			tmpl = ast.NewListNode("lv", one, "...", ast.NewBooleanNode(true), two, ast.NewUintNode(2, 7))
+		}
+		s0 := zzSnapItem(tmpl)
+		name := "..."
+		if shape == 2 {
+			name = []string{"...[0]", "...[1]"}[rt.Choice("which", 2)]
+		}
+		n := rt.Choice("n", 3)
+		d := tmpl.FillVariables(map[string]interface{}{name: n})
+		sd := zzSnapItem(d)
+		zzSameSnap(zzSnapItem(tmpl), s0, "list-derive:template-unchanged")
+		d2 := tmpl.FillVariables(map[string]interface{}{name: 2 - n, "q": "zz"})
+		zzSameSnap(zzSnapItem(tmpl), s0, "list-derive:template-unchanged-after-second")
+		zzSameSnap(zzSnapItem(d), sd, "list-derive:first-result-unchanged-by-second")
+		_ = d2
+	case 14: // two fills of one template with different values: the first result keeps its values
+		kind := rt.Param("kind")
+		v1, v2 := rt.Byte("v1"), rt.Byte("v2")
+		var tmpl ast.ItemNode
+		var a, b interface{}
+		switch kind {
+		case 0:
+			tmpl, a, b = ast.NewBooleanNode(true, "p", false, "q"), v1&1 == 1, v2&1 == 1
+		case 1:
+			tmpl, a, b = ast.NewBinaryNode(9, "p", 8, "q"), int(v1), int(v2)
+		case 2:
+			tmpl, a, b = ast.NewIntNode(2, 9, "p", 8, "q"), int16(v1), int16(v2)
+		case 3:
+			tmpl, a, b = ast.NewUintNode(4, 9, "p", 8, "q"), uint32(v1), uint32(v2)
+		case 4:
+			tmpl, a, b = ast.NewFloatNode(8, 9.5, "p", 8.5, "q"), float64(v1), float64(v2)
+		case 5:
+			tmpl, a, b = ast.NewASCIINodeVariable("p", 0, -1), string([]byte{v1 & 0x7f}), string([]byte{v2 & 0x7f, 'z'})
+		case 6:
+			tmpl, a, b = ast.NewListNode(ast.NewUintNode(1, 1), "p", ast.NewBooleanNode("q")), ast.NewBinaryNode(int(v1)), ast.NewBinaryNode(int(v2), 3)
+		}
+		s0 := zzSnapItem(tmpl)
+		f1 := tmpl.FillVariables(map[string]interface{}{"p": a})
+		s1 := zzSnapItem(f1)
+		f2 := tmpl.FillVariables(map[string]interface{}{"p": b})
+		s2 := zzSnapItem(f2)
+		var qa interface{} = a
+		if kind == 6 {
+			qa = true
+		}
+		f3 := f1.FillVariables(map[string]interface{}{"q": qa})
+		zzSameSnap(zzSnapItem(tmpl), s0, "two-fills:template")
+		zzSameSnap(zzSnapItem(f1), s1, "two-fills:first-result")
+		zzSameSnap(zzSnapItem(f2), s2, "two-fills:second-result")
+		_ = f3
+	case 15: // answering a control request leaves the request as it was (and can be done twice)
+		which := rt.Param("kind")
+		var req ast.HSMSMessage
+		switch which {
+		case 0:
+			req = ast.NewHSMSMessageSelectReq(uint16(sid), sys)
+		case 1:
+			req = ast.NewHSMSMessageDeselectReq(uint16(sid), sys)
+		case 2:
+			req = ast.NewHSMSMessageLinktestReq(sys)
+		}
+		q0, t0 := append([]byte{}, req.ToBytes()...), req.Type()
+		mk := func() ast.HSMSMessage {
+			switch which {
+			case 0:
+				return ast.NewHSMSMessageSelectRsp(req, rt.Byte("status"))
+			case 1:
+				return ast.NewHSMSMessageDeselectRsp(req, rt.Byte("status"))
+			}
+			return ast.NewHSMSMessageLinktestRsp(req)
+		}
+		r1 := mk()
+		b1 := append([]byte{}, r1.ToBytes()...)
+		rt.Assert(rt.BytesEq(req.ToBytes(), q0), "control:request-unchanged-by-response")
+		rt.Assert(req.Type() == t0, "control:request-type-unchanged-by-response")
+		r2 := mk()
+		rt.Assert(rt.BytesEq(r2.ToBytes(), b1), "control:second-response-equal")
+		out := r2.ToBytes()
+		out[4+rt.Choice("j", 10)] ^= x
+		rt.Assert(rt.BytesEq(r1.ToBytes(), b1), "control:responses-do-not-share")
+		rt.Assert(rt.BytesEq(req.ToBytes(), q0), "control:request-unchanged-by-response-bytes")
 	case 9: // control messages: header argument, ToBytes result, decoder input
 		hdr := rt.Bytes("hdr", 10)
 		cm := ast.NewHSMSControlMessage(hdr)
